@@ -17,7 +17,18 @@ What runs:
      "Modulo the shuffle": a shuffle seeds its RNG with the characters of a compiler-internal container path;
      a pair that differs only there is accepted when some offset of our story's seed reproduces the reference
      transcript exactly (the theorem gives both stories the same constant draw stream instead).
-Violation key: corpus-pair:<relative file> (first differing line in the message).
+  5. COVERAGE-DIRECTED oracle on the implementation (harness bin inkcover), every pair, the large stories with
+     several exploration seeds: both stories in lock step, novelty-driven on the reference story (a choice =
+     its target container path; frontier of snapshots of every choice point that offered a choice never taken,
+     or never taken right after the previous choice), until nothing novel is left or a step budget is spent.
+     Reaches the deep, state-dependent parts of The Intercept that no fixed-depth walk reaches (all offered
+     choices taken in ~2000 choice steps).  Every reported divergence is re-played from scratch (no save/load)
+     along its choice path = the concrete failing input.  After a difference in texts only the walk goes on, so
+     one defect does not hide the others.  Coverage reached (choice targets taken / choice points in the
+     reference JSON) is recorded in the evidence.
+Violation keys: corpus-pair:<relative file> (first differing line in the message) for the bounded walk;
+corpus-path:<relative file>#<kind>:<reference text around the first differing character> for a divergence class
+found by the coverage-directed walk (one key per class, so a known class does not hide another one).
 """
 import json, os, re, time
 import vlib, gen_tables, gen_corpus, engine, compilerun
@@ -144,6 +155,138 @@ def oracle(ctx, pairs, exe):
     return fails, stats
 
 
+def choice_points(j):
+    """number of visible choice points ('*' objects without the invisible-default flag) in a story JSON"""
+    n = 0
+    stack = [j.get("root") if isinstance(j, dict) else None]
+    while stack:
+        x = stack.pop()
+        if isinstance(x, dict):
+            if "*" in x and not (int(x.get("flg", 0) or 0) & 8):
+                n += 1
+            stack.extend(x.values())
+        elif isinstance(x, list):
+            stack.extend(x)
+    return n
+
+
+def cover_case(p, rng_seed, max_steps, seed_b=None, path=None):
+    c = pair_case(p, 0, 0)
+    for k in ("depth", "max_paths", "order"):
+        c.pop(k, None)
+    c.update(rng_seed=rng_seed, max_steps=max_steps, max_len=400, max_ms=100000, max_classes=16)
+    if seed_b is not None:
+        c["seed_b"] = seed_b
+    if path is not None:
+        c["path"] = path
+    return c
+
+
+def cover_key(pair, cls):
+    return "corpus-path:%s#%s" % (pair, cls)
+
+
+def path_modulo_shuffle(exe, p, path):
+    """some offset of OUR story's seed under which the replay of `path` shows no difference?"""
+    cases = []
+    for d in list(range(1, 300)) + [-x for x in range(1, 300)]:
+        c = cover_case(p, 0, 0, seed_b=42 + d, path=path)
+        c["id"] = d
+        cases.append(c)
+    fn = os.path.join(vlib.SCRATCH, "covershuf_%d.jsonl" % os.getpid())
+    with open(fn, "w") as f:
+        for c in cases:
+            f.write(json.dumps(c) + "\n")
+    rc, o, e = vlib.sh([exe, fn], timeout=900)
+    os.remove(fn)
+    for line in o.splitlines():
+        try:
+            r = json.loads(line)
+        except Exception:
+            continue
+        if r.get("status") == "equal":
+            return r["id"]
+    return None
+
+
+def cover_oracle(ctx, pairs, exe):
+    """coverage-directed lock-step exploration; returns (failures, stats)"""
+    quick = ctx.quick()
+    steps_small, steps_big, nbig = (1500, 6000, 4) if quick else (20000, 60000, 12)
+    cases, order = [], []
+    for p in pairs:
+        if p["ours_text"] is None:
+            continue
+        big = len(p["ref_text"]) > gen_corpus.BIG
+        for k in range(nbig if big else 1):
+            c = cover_case(p, ctx.rng.randrange(1, 1 << 30), steps_big if big else steps_small)
+            cases.append(c)
+            order.append(p)
+    res = run_pairs(exe, cases)
+    stats = dict(pairs=len({p["name"] for p in order}), runs=len(cases), steps=0, playthroughs=0, lines=0, max_depth=0,
+                 exhaustive_pairs=0, unconfirmed=0, modulo_shuffle=[], big={})
+    # "modulo the shuffle", exactly: a shuffle seeds its RNG with (hash of a compiler-internal container path + loop
+    # index + story seed); where the two stories differ and seeded an RNG, OUR story's seed is shifted by the difference
+    # of the first shuffle seeds of the two stories (read off a replay of the diverging path) and the walk is repeated
+    redo = []
+    for k, (p, c, r) in enumerate(zip(order, cases, res)):
+        ds = r.get("divergences") or []
+        if ds and r.get("rng_seedings", 0) > 0 and c.get("seed_b") is None:
+            rp = run_pairs(exe, [cover_case(p, 0, 0, path=ds[0].get("path") or [])])[0]
+            sa = [x[1] for x in rp.get("seeds_a") or [] if x[0] == 1]
+            sb = [x[1] for x in rp.get("seeds_b") or [] if x[0] == 1]
+            if sa and sb and sa[0] != sb[0]:
+                delta = sa[0] - sb[0]
+                c2 = dict(c, seed_b=((42 + delta + 2 ** 31) % 2 ** 32) - 2 ** 31)
+                redo.append((k, c2, delta))
+    if redo:
+        for (k, c2, delta), r2 in zip(redo, run_pairs(exe, [c2 for _, c2, _ in redo])):
+            cases[k], res[k] = c2, r2
+            stats["modulo_shuffle"].append(dict(pair=order[k]["name"], seed_offset=delta, exact=True,
+                                                equal=r2.get("status") == "equal"))
+    fails, seen = [], set()
+    by_pair = {}
+    for p, c, r in zip(order, cases, res):
+        by_pair.setdefault(p["name"], []).append((p, c, r))
+    for name, runs in by_pair.items():
+        p = runs[0][0]
+        taken = set()
+        for _, c, r in runs:
+            for k in ("steps", "playthroughs", "lines", "unconfirmed"):
+                stats[k] += r.get(k, 0) or 0
+            stats["max_depth"] = max(stats["max_depth"], r.get("max_depth", 0) or 0)
+            taken |= set(r.get("taken") or [])
+            if r.get("status") in ("crash", "load"):
+                if ("status", name) not in seen:
+                    seen.add(("status", name))
+                    fails.append(dict(pair=name, mode="cover", cls="status:" + str(r.get("status")), status=r.get("status"),
+                                      path=None, reference="(explorer result)", ours=json.dumps(r)[:200], seed=42))
+                continue
+            for d in r.get("divergences") or []:
+                cls = d.get("class") or "x"
+                if (cls, name) in seen:
+                    continue
+                seen.add((cls, name))
+                if r.get("rng_seedings", 0) > 0:    # last resort (several shuffles with different shifts)
+                    off = path_modulo_shuffle(exe, p, d.get("path") or [])
+                    if off is not None:
+                        stats["modulo_shuffle"].append(dict(pair=name, seed_offset=off, path=d.get("path")))
+                        continue
+                fails.append(dict(pair=name, mode="cover", cls=cls, status="diverge", path=d.get("path"), index=d.get("index"),
+                                  reference=d.get("a"), ours=d.get("b"), after_choice=d.get("after_choice"), seed=42,
+                                  seed_b=c.get("seed_b"), source=p["src"] if len(p["src"]) < 4000 else None))
+        if all(r.get("exhaustive") for _, _, r in runs):
+            stats["exhaustive_pairs"] += 1
+        if len(p["ref_text"]) > gen_corpus.BIG:
+            total = choice_points(json.loads(p["ref_text"]))
+            stats["big"][name] = dict(choice_points=total, choice_targets_taken=len(taken),
+                                      coverage=round(len(taken) / total, 3) if total else None,
+                                      runs=len(runs), steps=[r.get("steps") for _, _, r in runs],
+                                      exhausted_novelty=[bool(r.get("exhaustive")) for _, _, r in runs],
+                                      max_depth=max((r.get("max_depth", 0) or 0) for _, _, r in runs))
+    return fails, stats
+
+
 def tie_cases(pairs):
     """inkdrive cases for model-vs-implementation: the theorem's exploration of both JSONs of each small pair"""
     cases = []
@@ -193,6 +336,7 @@ def run(ctx):
     exe_c = compilerun.build()
     exe = vlib.build_harness()
     exe_pair = vlib.build_harness(binname="inkpair")
+    exe_cover = vlib.build_harness(binname="inkcover")
     pairs = gen_corpus.compile_pairs(exe_c)
     facts = gen_tables.run(["engine"])
     _, cf = gen_corpus.gen_corpus(pairs)
@@ -211,6 +355,11 @@ def run(ctx):
         if p["ours_text"] is None:
             fails.append(dict(pair=p["name"], status="compile", ours="compiler rejects the corpus source: " + str(p["compile"]),
                               reference="(compiles with the reference compiler)", path=None, source=p["src"][:4000]))
+
+    # coverage-directed oracle on the implementation (deep, state-dependent paths)
+    t1 = time.time()
+    cfails, cstats = cover_oracle(ctx, pairs, exe_cover)
+    cstats["seconds"] = round(time.time() - t1, 1)
 
     # correspondence model <-> implementation on the theorem's own explorations, and on globals
     sw = {f: facts["engine." + f] for f in engine.SWITCH_FIELDS}
@@ -231,17 +380,26 @@ def run(ctx):
             mism.append(dict(id=r["id"], status=r["status"], first_diff=r.get("first_diff"), error=r.get("error", "")[-600:]))
 
     ctx.coverage.update(dict(
-        evaluations=ostats["paths"] * 2 + len(tc) + len(gc),
+        evaluations=ostats["paths"] * 2 + cstats["steps"] * 2 + len(tc) + len(gc),
         distinct_nontrivial=ostats["pairs"],
         rule="all %d (source, reference JSON) pairs; theorem: depth<=%d, <=%d nodes per story, seed 42, shared "
              "constant RNG stream; implementation oracle: depth<=%s, <=%s paths per pair (DFS), The Intercept BFS; "
              "lines+tags, choices+tags, end status, error/warning counts and all global variables compared at "
-             "every node" % (len(pairs), DEPTH, BUDGET, 6 if ctx.quick() else 10, 400 if ctx.quick() else 6000),
+             "every node; coverage-directed lock-step walk of every pair (novelty = choice target, then choice target "
+             "after the previous choice; %d runs, %d choice steps, %d pairs explored until nothing novel was left)"
+             % (len(pairs), DEPTH, BUDGET, 6 if ctx.quick() else 10, 400 if ctx.quick() else 6000,
+                cstats["runs"], cstats["steps"], cstats["exhaustive_pairs"]),
         samples=[dict(pair=pairs[0]["name"]), dict(pair=pairs[len(pairs) // 2]["name"]), dict(oracle=ostats)],
-        oracle=ostats, traces_validated_against_impl=agree, correspondence_mismatches=len(mism),
+        oracle=ostats, cover_oracle=cstats, traces_validated_against_impl=agree, correspondence_mismatches=len(mism),
         correspondence_skipped=skipped, proof_seconds=round(t_proof, 1)))
 
-    new = [f for f in fails if f["pair"] not in known]
+    new = [f for f in fails if f["pair"] not in known] + [f for f in cfails if f["pair"] not in known]
+    for f in cfails:
+        # a pair that is a known finding as a whole keeps its one key; otherwise one key per divergence class
+        key = "corpus-pair:" + f["pair"] if f["pair"] in known else cover_key(f["pair"], f["cls"])
+        ctx.violation("corpus pair %s diverges on choice path %s (coverage-directed walk, class %s): reference %s | ours %s" %
+                      (f["pair"], f.get("path"), f["cls"], str(f.get("reference"))[:140], str(f.get("ours"))[:140]),
+                      f, key=key)
     for f in fails:
         where = "path %s line %s" % (f.get("path"), f.get("index")) if f.get("path") is not None else f.get("status")
         ctx.violation("corpus pair %s diverges at %s: reference %s | ours %s" %
@@ -260,6 +418,7 @@ def run(ctx):
         ctx.violation("model/implementation correspondence broken: " + json.dumps(mism[0])[:400],
                       dict(mismatches=mism[:10]), no_input=True)
     ctx.notes.append("C05 wall %.0fs (proof %.0fs), oracle %s" % (time.time() - t0, t_proof, json.dumps(ostats)[:300]))
+    ctx.notes.append("C05 coverage-directed walk: %s" % json.dumps(cstats)[:600])
 
 
 def replay(ctx, payload):
@@ -269,6 +428,23 @@ def replay(ctx, payload):
     exe_pair = vlib.build_harness(binname="inkpair")
     pairs = [p for p in gen_corpus.compile_pairs(exe_c) if p["name"] == name]
     n = 0
+    if r.get("mode") == "cover":
+        exe_cover = vlib.build_harness(binname="inkcover")
+        known = set(gen_corpus.known_divergent())
+        for p in pairs:
+            if p["ours_text"] is None:
+                ctx.violation("compiler rejects corpus source %s: %s" % (name, p["compile"]), r, key="corpus-pair:" + name)
+                continue
+            out = run_pairs(exe_cover, [cover_case(p, 0, 0, seed_b=r.get("seed_b"), path=r.get("path") or [])])[0]
+            n += out.get("steps", 0) + 1
+            for d in out.get("divergences") or []:
+                if d.get("class") == r.get("cls"):
+                    key = "corpus-pair:" + name if name in known else cover_key(name, d["class"])
+                    ctx.violation("corpus pair %s diverges on choice path %s (class %s): reference %s | ours %s" %
+                                  (name, d.get("path"), d["class"], str(d.get("a"))[:140], str(d.get("b"))[:140]),
+                                  dict(r, path=d.get("path"), reference=d.get("a"), ours=d.get("b")), key=key)
+        ctx.coverage.update(dict(evaluations=n * 2, distinct_nontrivial=len(pairs), obligations=0, discharged=0))
+        return
     for p in pairs:
         if p["ours_text"] is None:
             ctx.violation("compiler rejects corpus source %s: %s" % (name, p["compile"]), r, key="corpus-pair:" + name)
